@@ -268,7 +268,25 @@ impl InterfaceInner {
         ipv6_repr: Ipv6Repr,
         ip_payload: &'frame [u8],
     ) -> HopByHopResponse<'frame> {
+        let ext_hdr = check!(Ipv6ExtHeader::new_checked(ip_payload));
+        let ext_repr = check!(Ipv6ExtHeaderRepr::parse(&ext_hdr));
+        let hbh_hdr = check!(Ipv6HopByHopHeader::new_checked(ext_repr.data));
+        let hbh_repr = check!(Ipv6HopByHopRepr::parse(&hbh_hdr));
+
+        // Per RFC 4443 § 2.4 (e.1), never send an ICMPv6 error in response to an
+        // ICMPv6 error message (types 0..=127); likewise a TCP reset is never answered
+        // with an error.
+        let upper = &ip_payload[ext_repr.header_len() + ext_repr.data.len()..];
+        let about_error = match ext_repr.next_header {
+            IpProtocol::Icmpv6 => upper.first().is_some_and(|ty| *ty < 128),
+            IpProtocol::Tcp => TcpPacket::new_checked(upper).is_ok_and(|tcp| tcp.rst()),
+            _ => false,
+        };
+
         let param_problem = || {
+            if about_error {
+                return None;
+            }
             let payload_len =
                 icmp_reply_payload_len(ip_payload.len(), IPV6_MIN_MTU, ipv6_repr.buffer_len());
             self.icmpv6_reply(
@@ -281,11 +299,6 @@ impl InterfaceInner {
                 },
             )
         };
-
-        let ext_hdr = check!(Ipv6ExtHeader::new_checked(ip_payload));
-        let ext_repr = check!(Ipv6ExtHeaderRepr::parse(&ext_hdr));
-        let hbh_hdr = check!(Ipv6HopByHopHeader::new_checked(ext_repr.data));
-        let hbh_repr = check!(Ipv6HopByHopRepr::parse(&hbh_hdr));
 
         for opt_repr in &hbh_repr.options {
             match opt_repr {
